@@ -1,7 +1,13 @@
 package main
 
 import (
+	"crypto/aes"
+	"crypto/cipher"
+	"encoding/binary"
+
 	"free5gclib/nas/security"
+
+	"github.com/aead/cmac"
 )
 
 // nea: {alg, key(hex,16), count, bearer, dir, msg(hex) [, nil:true] [, dirty:true]} -> {out} | {err}
@@ -71,6 +77,49 @@ func init() {
 			}
 		}
 		return map[string]interface{}{"none": true}
+	}
+	// manykeys: {n, seed} -> n different 128-bit keys used one after the other in ONE process under NEA2 and NIA2 (as many UE
+	// contexts, or re-authentications, do). Each result is compared with AES-CTR / AES-CMAC from the Go standard library and
+	// aead/cmac computed directly from that call's own key, COUNT, BEARER, DIRECTION: a result may depend on nothing else,
+	// in particular not on which keys were used before. Returns the first call that differs.
+	lineCmds["manykeys"] = func(in map[string]interface{}) map[string]interface{} {
+		n := int(num(in, "n"))
+		x := uint64(num(in, "seed"))*0x9E3779B97F4A7C15 + 1
+		next := func() uint64 {
+			x += 0x9E3779B97F4A7C15
+			z := x
+			z = (z ^ (z >> 30)) * 0xBF58476D1CE4E5B9
+			z = (z ^ (z >> 27)) * 0x94D049BB133111EB
+			return z ^ (z >> 31)
+		}
+		for i := 0; i < n; i++ {
+			var key [16]byte
+			binary.BigEndian.PutUint64(key[0:8], next())
+			binary.BigEndian.PutUint64(key[8:16], next())
+			count, bearer, dir := uint32(next()), uint8(next()%32), uint8(next()%2)
+			msg := make([]byte, 16+i%5)
+			for j := range msg {
+				msg[j] = byte(next())
+			}
+			// reference: TS 33.401 B.1.3 / B.2.3
+			iv := make([]byte, 16)
+			binary.BigEndian.PutUint32(iv[0:4], count)
+			iv[4] = bearer<<3 | dir<<2
+			blk, _ := aes.NewCipher(key[:])
+			want := make([]byte, len(msg))
+			cipher.NewCTR(blk, iv).XORKeyStream(want, msg)
+			hdr := append(append([]byte{}, iv[:8]...), msg...)
+			wmac, _ := cmac.Sum(hdr, blk, 16)
+			got := append([]byte{}, msg...)
+			if err := security.NASEncrypt(security.AlgCiphering128NEA2, key, count, bearer, dir, got); err != nil || hx(got) != hx(want) {
+				return map[string]interface{}{"first_bad": i, "what": "NEA2", "key": hx(key[:]), "count": count, "bearer": bearer, "dir": dir, "msg": hx(msg), "got": hx(got), "want": hx(want), "err": errs(err)}
+			}
+			mac, err := security.NASMacCalculate(security.AlgIntegrity128NIA2, key, count, bearer, dir, append([]byte{}, msg...))
+			if err != nil || hx(mac) != hx(wmac[:4]) {
+				return map[string]interface{}{"first_bad": i, "what": "NIA2", "key": hx(key[:]), "count": count, "bearer": bearer, "dir": dir, "msg": hx(msg), "got": hx(mac), "want": hx(wmac[:4]), "err": errs(err)}
+			}
+		}
+		return map[string]interface{}{"first_bad": -1, "calls": 2 * n}
 	}
 	lineCmds["nia"] = func(in map[string]interface{}) map[string]interface{} {
 		key := neaKey(in)
